@@ -19,6 +19,7 @@ func TestC43(t *testing.T) {
 			"fault firing order depends on goroutine scheduling; every verdict is sound for every schedule, a replay may need VERIF_REPLAY_REPEAT",
 		},
 		Gen: genPlan, Exec: exec,
+		Known: knownPlans(),
 		Quick: 300, Thorough: 3000,
 		Sample: func(p Plan) any { return p.Summary() },
 	})
